@@ -16,11 +16,12 @@ Definition ty_start (t : tok) : bool :=
 
 Lemma ty_head (t : aty) : exists tk r, p_ty t = tk :: r /\ ty_start tk = true.
 Proof.
-  destruct t as [v|n args|s|ts|m l t|m t|t| |]; cbn.
+  destruct t as [v|n args|s|ts|m l t|m t|t|t c| |]; cbn.
   - destruct v; cbn; eauto.
   - eauto.
   - eauto.
   - destruct ts as [|t1 [|t2 r]]; cbn; eauto.
+  - eauto.
   - eauto.
   - eauto.
   - eauto.
@@ -41,7 +42,7 @@ Proof. destruct l as [[d i]| |]; reflexivity. Qed.
 Ltac ty_heads t rest :=
   let tk := fresh "tk" in let r := fresh "r" in let E := fresh "E" in let Hs := fresh "Hs" in
   destruct (ty_head t) as [tk [r [E Hs]]]; rewrite E; cbn [app];
-  destruct tk as [[]| | | | | | |[]]; try discriminate Hs; try reflexivity.
+  destruct tk as [[]| | | | | | | |[]]; try discriminate Hs; try reflexivity.
 
 Lemma starts_lt_ty t rest : starts_lt (p_ty t ++ rest) = false.
 Proof. ty_heads t rest. Qed.
@@ -50,9 +51,16 @@ Proof. intros H1 H2 H3 H4 H5. ty_heads t rest; destruct p; try reflexivity; cong
 Lemma peek_kw_ty k t rest : (forall s, k <> Kscalar s) -> k <> Kstr -> peek_kw k (p_ty t ++ rest) = false.
 Proof.
   intros H Hstr. destruct (ty_head t) as [tk [r [E Hs]]]. rewrite E. cbn [app].
-  destruct tk as [k'| | | | | | |[]]; try discriminate Hs; try reflexivity.
+  destruct tk as [k'| | | | | | | |[]]; try discriminate Hs; try reflexivity.
   destruct k'; try discriminate Hs; cbn; destruct k; try reflexivity; try congruence; exfalso; eapply H; eauto.
 Qed.
+
+Lemma not_num_ty A t rest (X : N -> list tok -> A) (Y : A) :
+  match p_ty t ++ rest with NUM n :: r => X n r | _ => Y end = Y.
+Proof. ty_heads t rest. Qed.
+
+Lemma parse_konst_print c rest : parse_konst (p_konst c ++ rest) = Some (c, rest).
+Proof. destruct c as [[d i]|n]; reflexivity. Qed.
 
 Lemma peek_lt p l rest : peek p (p_lt l ++ rest) = false.
 Proof. destruct l as [[d i]| |]; reflexivity. Qed.
@@ -79,11 +87,11 @@ Fixpoint need_ty (t : aty) : nat :=
   | TVar _ | TScalar _ => 1
   | TAdt _ args => S (list_sum (map (fun a => S (need_garg a)) args))
   | TTuple ts => S (list_sum (map (fun t => S (need_ty t)) ts))
-  | TRef _ _ t | TRaw _ t | TSlice t => S (need_ty t)
+  | TRef _ _ t | TRaw _ t | TSlice t | TArray t _ => S (need_ty t)
   | TStr | TNever => 1
   end
 with need_garg (a : agarg) : nat :=
-  match a with GTy t => need_ty t | GLt _ => 0 end.
+  match a with GTy t => need_ty t | _ => 0 end.
 
 Definition need_gargs (args : list agarg) : nat := list_sum (map (fun a => S (need_garg a)) args).
 Definition need_tys (ts : list aty) : nat := list_sum (map (fun t => S (need_ty t)) ts).
@@ -109,7 +117,7 @@ Proof.
     - intros [|a r] rest H H'; [congruence|]. unfold need_tys in H'. cbn in H'. lia. }
   repeat split.
   - (* types *)
-    intros t rest Hn Hr. destruct t as [v|nm args|s|ts|m l t|m t|t| |]; cbn [need_ty] in Hn.
+    intros t rest Hn Hr. destruct t as [v|nm args|s|ts|m l t|m t|t|t c| |]; cbn [need_ty] in Hn.
     + destruct v; reflexivity.
     + cbn [p_ty parse_ty app]. fold need_gargs in Hn. destruct args as [|a r].
       * cbn [map angle app]. unfold no_lt in Hr. rewrite Hr. reflexivity.
@@ -142,6 +150,8 @@ Proof.
       * rewrite IHt; [reflexivity|lia|exact Hr].
       * rewrite IHt; [reflexivity|lia|exact Hr].
     + cbn [p_ty]. norm. cbn [parse_ty]. rewrite IHt; [|lia|reflexivity]. rp. reflexivity.
+    + cbn [p_ty]. norm. cbn [parse_ty]. rewrite IHt; [|lia|reflexivity]. rp.
+      rewrite parse_konst_print. rp. reflexivity.
     + reflexivity.
     + reflexivity.
   - (* generic arguments *)
@@ -149,13 +159,17 @@ Proof.
     unfold need_gargs in Hn. cbn [map list_sum fold_right] in Hn.
     cbn [map]. cbn [parse_gargs].
     destruct r as [|b r']; cbn [map]; [rewrite sep_one|rewrite sep_more];
-      destruct a as [t|l]; cbn [p_garg need_garg] in *.
-    + rewrite starts_lt_ty. rewrite IHt; [|lia|reflexivity]. reflexivity.
+      destruct a as [t|l|nn|[]]; cbn [p_garg need_garg] in *.
+    + rewrite starts_lt_ty, not_num_ty. rewrite IHt; [|lia|reflexivity]. reflexivity.
     + rewrite starts_lt_print, parse_lt_print. reflexivity.
-    + rewrite starts_lt_ty. rewrite IHt; [|lia|reflexivity]. rp.
+    + reflexivity.
+    + rewrite starts_lt_ty, not_num_ty. rewrite IHt; [|lia|reflexivity]. rp.
       assert (Hn' : need_gargs (b :: r') <= n) by (unfold need_gargs, list_sum in *; cbn [map fold_right] in *; lia).
       rew_map (IHg (b :: r') rest ltac:(congruence) Hn'). reflexivity.
     + rewrite starts_lt_print, parse_lt_print. rp.
+      assert (Hn' : need_gargs (b :: r') <= n) by (unfold need_gargs, list_sum in *; cbn [map fold_right] in *; lia).
+      rew_map (IHg (b :: r') rest ltac:(congruence) Hn'). reflexivity.
+    + cbn [app starts_lt]. rp.
       assert (Hn' : need_gargs (b :: r') <= n) by (unfold need_gargs, list_sum in *; cbn [map fold_right] in *; lia).
       rew_map (IHg (b :: r') rest ltac:(congruence) Hn'). reflexivity.
   - (* tuple elements *)
@@ -184,16 +198,14 @@ Qed.
 (* ------------------------------------------------------------------------------------- *)
 (** ** Binders, where clauses *)
 
-Definition btok (k : kind) (D i : nat) : tok := match k with KTy => VAR D i | KLt => LTV D i end.
-
-Lemma p_binder_names_cons D i k r : p_binder_names D i (k :: r) = [btok k D i] :: p_binder_names D (S i) r.
-Proof. destruct k; reflexivity. Qed.
+Lemma p_binder_names_cons D i k r : p_binder_names D i (k :: r) = btok k D i :: p_binder_names D (S i) r.
+Proof. reflexivity. Qed.
 
 Lemma parse_binder_names_step n D i k rest :
-  parse_binder_names (S n) D i (btok k D i :: rest) =
+  parse_binder_names (S n) D i (btok k D i ++ rest) =
   if peek PComma rest then '(l, r'') <- parse_binder_names n D (S i) (tl rest) ;; Some (k :: l, r'')
   else if peek PGt rest then Some ([k], tl rest) else None.
-Proof. destruct k; cbn [btok parse_binder_names]; rewrite !Nat.eqb_refl; reflexivity. Qed.
+Proof. destruct k; cbn [btok app parse_binder_names]; rewrite !Nat.eqb_refl; reflexivity. Qed.
 
 Lemma parse_binder_names_print ks : forall n D i rest,
   ks <> [] -> length ks <= n ->
@@ -203,8 +215,8 @@ Proof.
   destruct n as [|n]; [cbn in Hn; arith|]. cbn [length] in Hn.
   rewrite p_binder_names_cons.
   destruct r as [|k2 r'].
-  - cbn [p_binder_names]. rewrite sep_one. cbn [app]. rewrite parse_binder_names_step. reflexivity.
-  - rewrite p_binder_names_cons. rewrite sep_more. cbn [app]. rewrite parse_binder_names_step. rp.
+  - cbn [p_binder_names]. rewrite sep_one. rewrite parse_binder_names_step. reflexivity.
+  - rewrite p_binder_names_cons. rewrite sep_more. rewrite parse_binder_names_step. rp.
     rewrite <- p_binder_names_cons.
     rewrite (IH n D (S i) rest); [reflexivity|congruence|cbn [length] in *; arith].
 Qed.
